@@ -457,6 +457,9 @@ func (d *driver) pickOp() (model.Op, bool) {
 			return o, true
 		}
 	}
+	if d.rng.Intn(45) == 0 {
+		return mk("Churn", 0), true
+	}
 	searchOdds := 16
 	if d.big || d.bigObj {
 		searchOdds = 7
@@ -1182,6 +1185,83 @@ func cmdDrive(args []string) int {
 				}
 				logged(model.Op{Op: "ForEach", R: a, I: 8, V: none})
 				logged(model.Op{Op: "NativeCheck", R: outerB, V: none})
+			})
+		}
+		// equality and search across a churn of thousands of unrelated values (interning / memo tables that get rebuilt)
+		scen(20400, func(d *driver, logged func(model.Op) model.Val) {
+			inner := logged(model.Op{Op: "NewObject", V: none, Vs: []model.Val{{K: "str", V: 1}, {K: "str", V: 2}}}).V
+			a := logged(model.Op{Op: "NewList", V: none, Vs: []model.Val{{K: "str", V: 1}, {K: "str", V: 2}, {K: "int", V: 3}, {K: "float", V: 2}, {K: "ref", V: inner}, {K: "str", V: 1}}}).V
+			b := logged(model.Op{Op: "Clone", R: a, V: none}).V
+			logged(model.Op{Op: "Churn", V: none})
+			c := logged(model.Op{Op: "Clone", R: a, V: none}).V
+			e := logged(model.Op{Op: "NewList", V: none, Vs: []model.Val{{K: "str", V: 1}, {K: "str", V: 2}, {K: "int", V: 3}, {K: "float", V: 2}, {K: "ref", V: inner}, {K: "str", V: 1}}}).V
+			if *derived == 0 {
+				for _, pr := range [][2]int{{a, b}, {a, c}, {b, c}, {c, a}, {a, e}, {e, b}} {
+					logged(model.Op{Op: "Equals", R: pr[0], J: pr[1], V: none})
+				}
+			}
+			logged(model.Op{Op: "IndexOf", R: a, V: model.Val{K: "str", V: 2}})
+			logged(model.Op{Op: "Contains", R: c, V: model.Val{K: "str", V: 1}})
+			logged(model.Op{Op: "Churn", V: none})
+			logged(model.Op{Op: "Set", R: inner, V: none, Vs: []model.Val{{K: "str", V: 2}, {K: "str", V: 1}}})
+			logged(model.Op{Op: "NativeCheck", R: a, V: none})
+			logged(model.Op{Op: "Text", R: a, V: none})
+			if *derived == 0 {
+				logged(model.Op{Op: "Equals", R: a, J: e, V: none})
+				logged(model.Op{Op: "Equals", R: a, J: c, V: none})
+			}
+		})
+		// three holders of equal content (an object, its copy, a copy of the copy): Clear / Unset / Set on one after the other
+		for si := 0; si < 6; si++ {
+			si := si
+			scen(20430+si, func(d *driver, logged func(model.Op) model.Val) {
+				str := func(k int) model.Val { return model.Val{K: "str", V: k} }
+				o := logged(model.Op{Op: "NewObject", V: none, Vs: []model.Val{str(1), {K: "int", V: 1}, str(2), {K: "str", V: 3}, str(3), {K: "float", V: 2}}}).V
+				c1 := logged(model.Op{Op: "CloneO", R: o, V: none}).V
+				var c2 int
+				if si%2 == 0 {
+					c2 = logged(model.Op{Op: "CloneO", R: c1, V: none}).V
+				} else {
+					c2 = logged(model.Op{Op: "CloneO", R: o, V: none}).V
+				}
+				h := [][3]int{{o, c1, c2}, {c1, c2, o}, {c2, o, c1}}[si%3]
+				logged(model.Op{Op: "ClearO", R: h[0], V: none})
+				logged(model.Op{Op: "Set", R: h[0], V: none, Vs: []model.Val{str(1), {K: "int", V: 9}}})
+				logged(model.Op{Op: "Set", R: h[1], V: none, Vs: []model.Val{str(2), {K: "int", V: 8}}})
+				logged(model.Op{Op: "Unset", R: h[2], V: none, Ks: []int{3}})
+				logged(model.Op{Op: "Set", R: h[0], V: none, Vs: []model.Val{str(4), {K: "bool", V: 1}}})
+				logged(model.Op{Op: "ClearO", R: h[1], V: none})
+				logged(model.Op{Op: "Set", R: h[2], V: none, Vs: []model.Val{str(1), {K: "nil"}}})
+				logged(model.Op{Op: "Set", R: h[1], V: none, Vs: []model.Val{str(3), {K: "int", V: 7}}})
+				lst := logged(model.Op{Op: "NewList", V: none, Vs: []model.Val{{K: "ref", V: h[2]}, {K: "ref", V: h[2]}}}).V
+				cl := logged(model.Op{Op: "Clone", R: lst, V: none})
+				_ = cl
+				logged(model.Op{Op: "SetTF", R: lst, V: model.Val{K: "int", V: 5}, Vs: []model.Val{{K: "idx", V: 0}, {K: "key", V: 2}}})
+				logged(model.Op{Op: "UnsetTF", R: lst, V: none, Vs: []model.Val{{K: "idx", V: 1}, {K: "key", V: 1}}})
+			})
+		}
+		// deep copies of medium lists with containers at block boundaries (index 31, 32, 63, 64, last)
+		for si, n := range []int{33, 40, 64, 65, 130, 257} {
+			n := n
+			scen(20450+si, func(d *driver, logged func(model.Op) model.Val) {
+				a := logged(model.Op{Op: "NewListOf", I: n, V: model.Val{K: "int", V: 2}}).V
+				for _, at := range []int{0, 31, 32, 63, 64, n - 1} {
+					if at < n {
+						in := logged(model.Op{Op: "NewList", V: none, Vs: []model.Val{{K: "int", V: at % 10}}}).V
+						logged(model.Op{Op: "Replace", R: a, I: at, V: model.Val{K: "ref", V: in}})
+					}
+				}
+				b := logged(model.Op{Op: "Clone", R: a, V: none})
+				logged(model.Op{Op: "NativeCheck", R: a, V: none})
+				if b.K == "ref" && *derived == 0 {
+					logged(model.Op{Op: "Equals", R: a, J: b.V, V: none})
+				}
+				sub := logged(model.Op{Op: "SubList", R: a, I: 1, J: 0, V: none})
+				if sub.K == "ref" {
+					logged(model.Op{Op: "Clone", R: sub.V, V: none})
+				}
+				host := logged(model.Op{Op: "NewObject", V: none, Vs: []model.Val{{K: "str", V: 1}, {K: "ref", V: a}}}).V
+				logged(model.Op{Op: "CloneO", R: host, V: none})
 			})
 		}
 		// long lists whose LAST elements are containers (block-wise or parallel processing that drops a remainder)
